@@ -294,6 +294,8 @@ OpsOf(h) ==
                             [op |-> "move", k |-> 1], [op |-> "rebuild"], Exec(AllFlags) >>
     \* the documented periodic sequence: upward pass, periodic top tree, transfer, downward pass
     [] h = "ptop"     -> << Exec({"P2M", "M2M"}), [op |-> "top"], Exec({"M2L", "P2P"}), Exec({"L2L", "L2P"}) >>
+    \* the top tree and the transfer stage are independent ("could be done in parallel"): the other order is as valid
+    [] h = "ptopb"    -> << Exec({"P2M", "M2M"}), Exec({"M2L", "P2P"}), [op |-> "top"], Exec({"L2L", "L2P"}) >>
 
 (***************************************************************************)
 (* Initial states: every occupancy pattern of the pool (1..MaxPerLeaf      *)
@@ -314,7 +316,7 @@ ZeroCnt == [P2M |-> 0, M2M |-> 0, M2L |-> 0, L2L |-> 0, L2P |-> 0, P2P |-> 0, P2
 
 Init == \E fs \in Patterns, ft \in Patterns, b \in BlockSizes, o \in GroupModes, st \in StopLevels, h \in Histories, n \in AboveLevelsP1 :
           /\ PatternNumber(fs) % NbShards = Shard
-          /\ (h = "ptop" \/ n = CHOOSE m \in AboveLevelsP1 : TRUE) /\ above = n - 1
+          /\ (h \in {"ptop", "ptopb"} \/ n = CHOOSE m \in AboveLevelsP1 : TRUE) /\ above = n - 1
           /\ (~Tsm => ft = fs)
           /\ sparts = PartsOf(fs) /\ tparts = PartsOf(ft)
           /\ bs = b /\ ogpp = o /\ stop = st /\ hname = h
@@ -474,7 +476,7 @@ ImagesOnceInner == (Done /\ FullHistory /\ Periodic /\ stop <= 1) =>
     \A p \in DOMAIN rhs : rhs[p] = BagOfSet({ <<x[1], VAdd(VSub(LeafCentre(sparts[x[1]]), LeafCentre(tparts[p])), Scale(x[2], BoxW))>> :
                                                  x \in { y \in (1..Len(sparts)) \X ImageCube : Tsm \/ ~(y[1] = p /\ y[2] = Zero) } })
 \* C10: with the top tree, one contribution from every image of the repetition cube the library reports (none from itself in the central box)
-ImagesExactlyOnce == (Done /\ hname = "ptop" /\ Periodic /\ stop <= 1) =>
+ImagesExactlyOnce == (Done /\ hname \in {"ptop", "ptopb"} /\ Periodic /\ stop <= 1) =>
     \A p \in DOMAIN rhs : rhs[p] = BagOfSet({ <<x[1], VAdd(VSub(LeafCentre(sparts[x[1]]), LeafCentre(tparts[p])), Scale(x[2], BoxW))>> :
                                                  x \in { y \in (1..Len(sparts)) \X [Dims -> IntervalLo..IntervalHi] : Tsm \/ ~(y[1] = p /\ y[2] = Zero) } })
 \* C18: the counters equal the cardinalities of the elementary sets
